@@ -263,6 +263,15 @@ class CallMixin:
                 star.append(self.eval(k.value, fr))
             else:
                 kwargs[k.arg] = self.eval(k.value, fr)
+        # f(**{complete mapping with text keys}) is f(key=value, ...)
+        rest = []
+        for m in star:
+            if isinstance(m, DictV) and m.complete and not m.star and m.pairs and all(isinstance(k, str) for k, _ in m.pairs):
+                for k, v in m.pairs:
+                    kwargs.setdefault(k, v)
+            else:
+                rest.append(m)
+        star = rest
         return self.call_v(fv, args, kwargs, fr, node, star)
 
     def call_v(self, fv, args, kwargs, fr, node=None, star=()):
